@@ -45,7 +45,7 @@ def _where(tb):
 def _prune_check(c):
     """explorer hook: is the decision just taken refuted by a cone-of-influence relaxation (1 s)?"""
     goal = c.path[-1]
-    rest = list(c.assumptions) + list(c.path[:-1])
+    rest = list(c.assumptions) + list(c.path[:-1]) + list(c.div_guards)
     for sl in _slices(rest, goal):
         if _solve(sl + [goal], 1.0)[0] == 'unsat':
             return True
@@ -264,10 +264,10 @@ def _solve_obligation(c, base, feas, feas_inputs, i, ob, timeout_s, conn):
 def _feasibility(c, timeout_s):
     """is assumptions /\ path satisfiable?  Infeasible paths are usually refuted by one decision plus a few
     assumptions, so every decision is first tried as the goal of a cone-of-influence relaxation."""
-    base = list(c.assumptions) + list(c.path)
+    base = list(c.assumptions) + list(c.path) + list(c.div_guards)
     t0 = time.time()
     for k in range(len(c.path) - 1, -1, -1):
-        rest = list(c.assumptions) + list(c.path[:k]) + list(c.path[k + 1:])
+        rest = list(c.assumptions) + list(c.path[:k]) + list(c.path[k + 1:]) + list(c.div_guards)
         for sl in _slices(rest, c.path[k]):
             if _solve(sl + [c.path[k]], 2.0)[0] == 'unsat':
                 return 'unsat', None, time.time() - t0
@@ -302,7 +302,7 @@ def solve_path(claim, decisions, only, timeout_s, conn, feas_mode='auto'):
         conn.send(('done',))
         return
     for i, ob in todo:
-        _solve_obligation(c, base, feas, msg.get('inputs'), i, ob, timeout_s, conn)
+        _solve_obligation(c, base + c.div_guards[:c.oblig.nguards[i]], feas, msg.get('inputs'), i, ob, timeout_s, conn)
     conn.send(('done',))
 
 
@@ -878,7 +878,7 @@ def solve_path_nofeas(claim, decisions, only, timeout_s, conn):
     for i, ob in enumerate(c.oblig):
         if i not in only:
             continue
-        _solve_obligation(c, base, 'unknown', None, i, ob, timeout_s, conn)
+        _solve_obligation(c, base + c.div_guards[:c.oblig.nguards[i]], 'unknown', None, i, ob, timeout_s, conn)
     conn.send(('done',))
 
 
